@@ -177,6 +177,31 @@ func loadGroup(g GroupCfg) (*loaded, error) {
 		}
 		l.stubs[target] = fn
 	}
+	// every stub must have exactly the signature of its target (receiver first)
+	var fcache map[string]*ssa.Function
+	for target, st := range l.stubs {
+		tf := findFunction(prog, target, &fcache)
+		if tf == nil {
+			continue // target not linked into this program: the stub is unused here
+		}
+		var want []types.Type
+		if r := tf.Signature.Recv(); r != nil {
+			want = append(want, r.Type())
+		}
+		for i := 0; i < tf.Signature.Params().Len(); i++ {
+			want = append(want, tf.Signature.Params().At(i).Type())
+		}
+		ok := len(want) == st.Signature.Params().Len() && tf.Signature.Results().Len() == st.Signature.Results().Len()
+		for i := 0; ok && i < len(want); i++ {
+			ok = types.Identical(want[i], st.Signature.Params().At(i).Type())
+		}
+		for i := 0; ok && i < tf.Signature.Results().Len(); i++ {
+			ok = types.Identical(tf.Signature.Results().At(i).Type(), st.Signature.Results().At(i).Type())
+		}
+		if !ok {
+			return nil, fmt.Errorf("stub %s does not have the signature of its target %s: %s vs %s", st.Name(), target, st.Signature, tf.Signature)
+		}
+	}
 	for name, m := range l.pkg.Members {
 		if fn, ok := m.(*ssa.Function); ok && strings.HasPrefix(name, "vf") {
 			l.rt[name] = fn
